@@ -119,16 +119,29 @@ Definition check_answer (front : N) (o : qopts) (roots : list bytes) (bs : list 
     else None
   end.
 
-Fixpoint first_fail (front : N) (o : qopts) (roots : list bytes) (bs : list block) (qs anss : list val)
-  : option (string * val * val) :=
+(* class of a failed clause: the two known deviations, else "" *)
+Definition fail_class (o : qopts) (idxids : bool) (clause : string) (q a : val) : string :=
+  let key := vB (vnth 1 q) in
+  let ident := match cid_parse key with Some kp => is_identity kp | None => false end in
+  let digest_size := match cid_parse key with Some kp => val_is_size a (blen (c_digest kp)) | None => false end in
+  (* the documented corner: identity key, StoreIdentityCIDs on, index without identity entries *)
+  if String.eqb clause "carried-key-not-found" && ident && q_storeid o && negb idxids
+  then "index-without-identity-entries"
+  (* GetSize answers len(digest) for every identity key, also under StoreIdentityCIDs *)
+  else if String.eqb clause "absent-key-getsize-not-notfound" && ident && q_storeid o && digest_size
+  then "identity-getsize-short-circuit" else "".
+
+(* all failing queries of a case as (clause, class) *)
+Fixpoint all_fails (front : N) (o : qopts) (idxids : bool) (roots : list bytes) (bs : list block) (qs anss : list val)
+  : list (string * string) :=
   match qs, anss with
   | q :: qs', a :: anss' =>
       match check_answer front o roots bs q a with
-      | Some c => Some (c, q, a)
-      | None => first_fail front o roots bs qs' anss'
+      | Some c => (c, fail_class o idxids c q a) :: all_fails front o idxids roots bs qs' anss'
+      | None => all_fails front o idxids roots bs qs' anss'
       end
-  | [], [] => None
-  | _, _ => Some ("answer-count-mismatch"%string, VL [], VL [])
+  | [], [] => []
+  | _, _ => [("answer-count-mismatch", "")]
   end.
 
 (* executable form of ReadOnlyRefine.consistent: sections with equal multihash carry equal bytes *)
@@ -175,19 +188,12 @@ Definition prop_ro1 (front : N) (input obs : val) : val :=
   let qs := map (fun q => match q with
                           | VL [VT t] => VL [VT t; VB (cid_enc (mkcid 1 85 0 []))]
                           | _ => q end) (vL (vnth 4 input)) in
-  match first_fail front o roots bs qs (vL (vnth 1 obs)) with
-  | None => VT "ok"
-  | Some (clause, q, a) =>
-      let key := vB (vnth 1 q) in
-      let ident := match cid_parse key with Some kp => is_identity kp | None => false end in
-      let digest_size := match cid_parse key with Some kp => val_is_size a (blen (c_digest kp)) | None => false end in
-      (* the documented corner: identity key, StoreIdentityCIDs on, index without identity entries *)
-      let klass := if String.eqb clause "carried-key-not-found" && ident && q_storeid o && negb idxids
-                   then "index-without-identity-entries"
-                   (* GetSize answers len(digest) for every identity key, also under StoreIdentityCIDs *)
-                   else if String.eqb clause "absent-key-getsize-not-notfound" && ident && q_storeid o && digest_size
-                   then "identity-getsize-short-circuit" else "" in
-      VL [VT "FAIL"; VT clause; VT klass]
+  let fails := all_fails front o idxids roots bs qs (vL (vnth 1 obs)) in
+  (* report an unlisted failure first, so that a known deviation never hides another one *)
+  match find (fun f => String.eqb (snd f) "") fails, fails with
+  | Some (clause, klass), _ => VL [VT "FAIL"; VT clause; VT klass]
+  | None, (clause, klass) :: _ => VL [VT "FAIL"; VT clause; VT klass]
+  | None, [] => VT "ok"
   end.
 
 (* keys/roots queries carry no key: prop_ro1 gives check_answer a parseable dummy *)
